@@ -42,7 +42,11 @@ func labelsCaseMode(mode, typeName string, labels []string) engine.Case {
 	for _, l := range labels {
 		ps = append(ps, fmt.Sprintf("%+q", l))
 	}
-	return engine.Case{ID: "l/" + strings.TrimPrefix(strings.TrimPrefix(mode, "labels"), "-") + "/" + typeName + "/" + strings.Join(ps, ","), Data: Data{Mode: mode, BlockType: typeName, Labels: append([]string{}, labels...)}}
+	reader := strings.TrimPrefix(strings.TrimPrefix(mode, "labels"), "-")
+	if reader == "" {
+		reader = "hclsyntax"
+	}
+	return engine.Case{ID: "l/" + reader + "/" + typeName + "/" + strings.Join(ps, ","), Data: Data{Mode: mode, BlockType: typeName, Labels: append([]string{}, labels...)}}
 }
 
 func travCase(root string, steps []Step) engine.Case {
